@@ -31,7 +31,8 @@ func newXMLWriter() *xmlWriter {
 }
 
 func (enc *xmlWriter) Clear() {
-	panicOnErr(enc.w.Close())
+	// The previous xml.Encoder is dropped, not closed: after an encoding that panicked half-way it holds
+	// unclosed elements, which Close reports as an error while leaving the encoder closed for good.
 	enc.buf.Reset()
 	enc.w = xml.NewEncoder(enc.buf)
 	enc.w.Indent("", "    ")
